@@ -321,6 +321,7 @@ def obj_pool(cname, mname, pname, recv):
     pool.append(['obj', _scalar_desc((), 'float', 'T')])
     if shape not in ((), (0,)):
         pool.append(['obj', _scalar_desc(shape, 'float', 'T')])
+    pool.append(['obj', _scalar_desc((), 'float', units='KM')])     # units arriving through an operand
     if cname == 'Units':
         return [['units', 'SEC'], ['self'], ['lit', None], ['lit', 2], ['units', 'KM']]
     pool.append(['obj', _scalar_desc((), 'int')])
